@@ -225,15 +225,17 @@ func Capitalize(s string) string {
 		if isSeparator(r) {
 			continue
 		}
-		if unicode.IsUpper(r) {
+		u := unicode.ToUpper(r)
+		if u == r {
 			return s
 		}
-		r = unicode.ToUpper(r)
+		// The upper case rune can have a different encoded length.
+		_, size := utf8.DecodeRuneInString(s[i:])
 		b := strings.Builder{}
 		b.Grow(len(s))
 		b.WriteString(s[:i])
-		b.WriteRune(r)
-		b.WriteString(s[i+utf8.RuneLen(r):])
+		b.WriteRune(u)
+		b.WriteString(s[i+size:])
 		return b.String()
 	}
 	return s
